@@ -494,6 +494,11 @@ def litlist(repo, res, ty, rule="LITLIST"):
 def run(repo, res, tier):
     ty = typer(repo)
     litlist(repo, res, ty)
+    from vlib import rules_skips as SK, tables
+    # a printer that skips a row, a level or a declaration leaves the script's reader looking at a table that is not there (bash: at the
+    # caller's table of the same name): every skip / guard in the four emitters is one of the rows confirmed by reading
+    n_sk = SK.skips_rule(repo, res, tables.load("skips")["row"], only=SK.printers(repo))
+    res.floor("SKIPS", n_sk, 100)
     from vlib import rules_fieldcover as FC
     # the one command-id set holds the command of EVERY symbol that has one, top-level and within-word (ids are looked up in it later)
     FC.fieldcover(repo, res, "dfa::DFA::get_commands", "Inp", "cmd", "call:insert", min_matches=2)
